@@ -28,6 +28,10 @@ Section MUP.
 Variables (St Up : Type).
 Variable apply : St -> Up -> St.
 Variable uid : Up -> Z.
+(** [ChannelMonitor::update_monitor] may REFUSE an update (return [Err]) although it changes the state,
+    e.g. a commitment update after the monitor saw the funding output spent; [ChainMonitor] then has the
+    persister store the full monitor ([update_persisted_channel(.., None, ..)]) instead of the update. *)
+Variable refuses : St -> Up -> bool.
 
 Record monitor := { mid : Z; mst : St }.
 Inductive val := VMon (sentinel : bool) (mon : monitor) | VUpd (u : Up) | VRaw (x : Z).
@@ -39,7 +43,9 @@ Notation mop := (sop mkey val).
 (** [ChannelMonitor::update_monitor]: panics on a non-consecutive id (channelmonitor.rs:4220). *)
 Inductive rres := ROk (mon : monitor) | RPanic | RErr | RNotFound.
 Definition update_monitor (mon : monitor) (u : Up) : rres :=
-  if uid u =? mid mon + 1 then ROk {| mid := uid u; mst := apply (mst mon) u |} else RPanic.
+  if uid u =? mid mon + 1 then
+    if refuses (mst mon) u then RErr else ROk {| mid := uid u; mst := apply (mst mon) u |}
+  else RPanic.
 
 (** [persist_new_channel]: one write of the full monitor (with the sentinel unless
     maximum_pending_updates = 0). *)
@@ -218,7 +224,7 @@ Definition call_ops_f (maxp : Z) (s : mstate) (c : call) (fails : nat -> bool) :
 
 (** The in-memory monitors of a history (the monitor handed to each call). *)
 Definition next_mem (cur : monitor) (c : call) : monitor :=
-  match c with CUpdate _ (Some _) mon => mon | _ => cur end.
+  match c with CUpdate _ _ mon => mon | _ => cur end.
 Fixpoint mems (cur : monitor) (cs : list call) : list monitor :=
   cur :: match cs with [] => [] | c :: r => mems (next_mem cur c) r end.
 
